@@ -14,6 +14,7 @@
 # 51 Franklin Street, Fifth Floor, Boston, MA  02110-1301, USA.
 
 from abc import (ABC, abstractmethod)
+import copy
 
 import numpy
 from numpy.random import Generator
@@ -450,8 +451,10 @@ class BaseAdaptiveSupport(ABC):
                                       .format(self.name))
         self.start_step = self.nsteps
 
+        # note: the proposals may update their parameters in place, so copies
+        # of the initial values are needed
         for attr, val in self._initial_proposal_params.items():
-            setattr(self, attr, val)
+            setattr(self, attr, copy.deepcopy(val))
 
     @abstractmethod
     def _update(self, chain):
